@@ -85,6 +85,9 @@ Definition s_final (f : final) : sexp :=
 Definition s_wire (w : wire) : sexp := SL [s_bool (w_connected w); s_bool (w_sent w)].
 
 (* case: (mode method retries-arg script) *)
+(* urlopen as the source has it *)
+Definition tunnel_up : bool := match Gen_Urlopen.tunnel_errors_are_not_proxy_errors with Some b => b | None => false end.
+
 Definition run (c : sexp) : sexp :=
   match c with
   | SL [SN m; meth; arg; script] =>
@@ -94,7 +97,7 @@ Definition run (c : sexp) : sexp :=
           let tr := run_loop LAT (getl Gen_Urlopen.urlopen_to_sslerror) (getl Gen_Urlopen.urlopen_to_proxyerror)
                              (getl Gen_Urlopen.urlopen_to_protocolerror) (getl Gen_Urlopen.retry_connection_error)
                              (getl Gen_Urlopen.retry_read_error) (getl Gen_Retry.retry_after_status_codes)
-                             script (match m with 0 => Direct | 1 => Forwarding | _ => Tunnelling end) meth r in
+                             script (match m with 0 => Direct | 1 => Forwarding | _ => Tunnelling tunnel_up end) meth r in
           SL [s_list s_wire (t_wire tr); s_list s_Q (t_sleeps tr); s_final (t_final tr)]
       | _, _, _ => s_bad_case
       end
